@@ -1116,21 +1116,31 @@ func c18RunCase(out *vh.Out, op string) {
 		sort.SliceStable(order, func(i, j int) bool { return c.levels[order[i]] < 2 && c.levels[order[j]] >= 2 })
 		for _, r := range order {
 			want := c.name(c.root[r])
-			found := -1
+			// the best candidate: a group showing exactly the sender's bytes (the domain in the form
+			// the report type requires) before one showing the same mailbox with another spelling of
+			// the domain; among equals the one with this recipient's status.  A twice rewritten
+			// recipient (KF-C18-1) is credited with an exact match only: the intermediate address of a
+			// sibling may be a mere respelling of the address the sender used
+			wantShown := vdsn.ShownAs(c.utf8, want)
+			found, best := -1, -1
 			for gi, g := range p.Rcpts {
 				if used[gi] || len(g["Final-Recipient"]) == 0 {
 					continue
 				}
 				_, a := vdsn.SplitTyped(g["Final-Recipient"][0])
-				if !vdsn.SameMailbox(a, want) {
+				score := 0
+				switch {
+				case a == wantShown || a == want:
+					score = 2
+				case vdsn.SameMailbox(a, want) && c.levels[r] < 2:
+				default:
 					continue
 				}
-				if found < 0 {
-					found = gi
-				}
 				if len(g["Status"]) > 0 && strings.TrimSpace(g["Status"][0]) == statusOf(exp.lastE[k][r]) {
-					found = gi
-					break
+					score++
+				}
+				if score > best {
+					found, best = gi, score
 				}
 			}
 			if found < 0 {
@@ -1167,14 +1177,22 @@ func c18RunCase(out *vh.Out, op string) {
 				if !ann {
 					m = "Internal server error"
 				}
-				m = strings.NewReplacer("\r", " ", "\n", " ").Replace(m)
-				if !c.utf8 {
-					m = strings.Map(func(ch rune) rune {
-						if ch >= 0x80 {
-							return '?'
-						}
-						return ch
-					}, m)
+				switch {
+				case vdsn.BareCR(m):
+					out.Stat("q.report.text.bare-cr")
+				case vdsn.HasCtl(m):
+					out.Stat("q.report.text.other-control")
+				case strings.ContainsAny(m, "\r\n"):
+					out.Stat("q.report.text.line-breaks")
+				default:
+					out.Stat("q.report.text.plain")
+				}
+				// the text as ONE field value can carry it: line breaks (CR, LF, in any combination)
+				// and other control characters shown as white space; US-ASCII only for a non-SMTPUTF8 message
+				if c.utf8 {
+					m = vdsn.FlatText(m)
+				} else {
+					m = vdsn.ASCIIText(m)
 				}
 				if !strings.HasSuffix(vdsn.CanonWs(dg[0]), vdsn.CanonWs(" "+m)) && vdsn.CanonWs(m) != "" {
 					viol("diagnostic-not-last-error", fmt.Sprintf("Diagnostic-Code %q, last error text %q", dg[0], m))
@@ -1247,29 +1265,49 @@ func c18RunCase(out *vh.Out, op string) {
 		for _, r := range c.rcpts {
 			senderSide[c.name(c.root[r])] = true
 		}
-		for id, nm := range c.names {
-			if senderSide[nm] || nm == "" {
-				continue
-			}
-			isRoot := false
-			for _, r := range c.rcpts {
-				if c.root[r] == id {
-					isRoot = true
+		// what the report may show: the sender's strings, and - in the address fields - their domain in
+		// the form the report type requires.  A rewritten spelling that happens to be a substring of
+		// such a string (trailing dot dropped) or equal to the required form (A-label for U-label) is
+		// not a disclosure; anywhere else it is
+		var allowed []string
+		for nm := range senderSide {
+			allowed = append(allowed, nm, vdsn.ShownAs(c.utf8, nm))
+		}
+		// (intermediate addresses first, in the order of their ids: when the report shows one - KF-C18-1 -
+		// an effective address that is a substring of it is not a second disclosure)
+		for pass := 0; pass < 2; pass++ {
+			told := false
+			var mentioned []string
+			for _, id := range c18SortedIDs(c.names) {
+				nm := c.names[id]
+				if senderSide[nm] || nm == "" {
+					continue
 				}
-			}
-			if isRoot {
-				continue
-			}
-			if bytes.Contains(ho.msg, []byte(nm)) {
-				sig := "intermediate-address-reported"
+				isRoot, isEff := false, false
 				for _, r := range c.rcpts {
+					if c.root[r] == id {
+						isRoot = true
+					}
 					if r == id {
-						sig = "rewritten-address-disclosed" // an effective address
+						isEff = true
 					}
 				}
-				viol(sig, fmt.Sprintf("report mentions %q, an address the sender never used", nm))
-				break
+				if isRoot || isEff != (pass == 1) {
+					continue
+				}
+				if vdsn.MentionsOutside(ho.msg, nm, allowed) {
+					sig := "intermediate-address-reported"
+					if isEff {
+						sig = "rewritten-address-disclosed" // an effective address
+					}
+					if !told {
+						viol(sig, fmt.Sprintf("report mentions %q, an address the sender never used", nm))
+						told = true
+					}
+					mentioned = append(mentioned, nm, vdsn.ShownAs(c.utf8, nm))
+				}
 			}
+			allowed = append(allowed, mentioned...)
 		}
 	}
 	for k := len(exp.failed); k < len(tries); k++ {
@@ -1289,6 +1327,33 @@ func c18RunCase(out *vh.Out, op string) {
 		out.Stat("q.front.pipeline")
 	}
 	out.Stat(fmt.Sprintf("q.target.%c", c.kind))
+	if c.front != nil {
+		for st, rules := range map[string][][]int{"g": c.front.g, "s": c.front.s, "r": c.front.r, "n": c.front.n} {
+			sp, real := false, false
+			for _, rule := range rules {
+				for _, o := range rule[1:] {
+					if o != rule[0] && vdsn.LooseEqual(c.name(o), c.name(rule[0])) {
+						sp = true
+					} else if o != rule[0] {
+						real = true
+					}
+				}
+			}
+			if sp {
+				out.Stat("q.front.spelling-only-rule." + st)
+			}
+			if sp && real {
+				out.Stat("q.front.spelling-and-real-rules." + st)
+			}
+		}
+	}
+	for k := range exp.failed {
+		for _, r := range exp.failed[k] {
+			if r != c.root[r] && vdsn.LooseEqual(c.name(r), c.name(c.root[r])) {
+				out.Stat(fmt.Sprintf("q.failed.respelled-only.levels-%d", c.levels[r]))
+			}
+		}
+	}
 	for k := range exp.tries {
 		if k >= len(c.plans) {
 			break
@@ -1345,16 +1410,16 @@ var c18Msgs = []string{
 	"multi  space   text", "emoji \U0001F4E7 here", strings.Repeat("long diagnostic text ", 12) + "end", "\u0080 edge ~", "ASCII only ~",
 }
 
+// c18Sanitise (the name is historical): gives the nodes of a generated error the texts of this
+// harness - ordinary ones and vdsn.NastyTexts (bare CR, CR CR LF, LF CR, NUL, other controls, DEL,
+// white space at the ends, long lines); verr's own texts (incl. DEL) stay otherwise.
 func c18Sanitise(r *vh.Rng, n *verr.Node) {
 	for ; n != nil; n = n.Inner {
-		bad := false
-		for _, ch := range n.Msg {
-			if (ch < 0x20 && ch != '\n' && ch != '\r') || ch == 0x7f {
-				bad = true
-			}
-		}
-		if bad || r.Chance(30) {
+		switch k := r.Intn(100); {
+		case k < 22:
 			n.Msg = c18Msgs[r.Intn(len(c18Msgs))]
+		case k < 42:
+			n.Msg = vdsn.NastyTexts[r.Intn(len(vdsn.NastyTexts))]
 		}
 	}
 }
@@ -1365,6 +1430,7 @@ func c18Sanitise(r *vh.Rng, n *verr.Node) {
 type c18Chain struct {
 	addrs []int
 	same  []bool
+	nest1 bool // the only step is taken by the NESTED pipeline (the outer one passes the address on as it is)
 }
 
 type c18Given struct {
@@ -1402,6 +1468,23 @@ func c18GenCase(r *vh.Rng) *c18Case {
 		next++
 		c.names[next] = vdsn.Addr(form, next)
 		formOf[next], numOf[next] = form, next
+		return next
+	}
+	// respell: a new id standing for another SPELLING of the mailbox id stands for (letter case of
+	// the local part / the domain, NFC / NFD, A-labels / U-labels, trailing dot); 0 = none available
+	respell := func(id int) int {
+		v := vdsn.Respell(c.names[id], r.Intn(vdsn.NumRespell))
+		if v == "" {
+			return 0
+		}
+		for _, nm := range c.names {
+			if nm == v {
+				return 0
+			}
+		}
+		next++
+		c.names[next] = v
+		formOf[next], numOf[next] = -1, next
 		return next
 	}
 	// sender
@@ -1536,8 +1619,20 @@ func c18GenCase(r *vh.Rng) *c18Case {
 				if l < depth-1 && r.Chance(10) {
 					f = r.Intn(vdsn.NumForms)
 				}
-				ch.addrs = append(ch.addrs, newID(f))
+				// 38%: the modifier changes only the SPELLING of the address (a table handing back the
+				// stored form): alone (depth 1) or chained with a real rewrite before / after it
+				id := 0
+				if r.Chance(38) {
+					id = respell(ch.addrs[len(ch.addrs)-1])
+				}
+				if id == 0 {
+					id = newID(f)
+				}
+				ch.addrs = append(ch.addrs, id)
 				ch.same = append(ch.same, l == 1 && same1)
+			}
+			if front && nested && depth == 1 && members == 1 && r.Chance(35) {
+				ch.nest1 = true
 			}
 			g.chains = append(g.chains, ch)
 			total++
@@ -1583,6 +1678,11 @@ func c18GenCase(r *vh.Rng) *c18Case {
 			for _, ch := range g.chains {
 				if len(ch.addrs) == 1 {
 					rule = append(rule, g.root)
+					continue
+				}
+				if ch.nest1 {
+					rule = append(rule, g.root)
+					f.n = append(f.n, []int{g.root, ch.addrs[1]})
 					continue
 				}
 				rule = append(rule, ch.addrs[1])
